@@ -14,6 +14,7 @@ Sum(s) == IF s = <<>> THEN 0 ELSE Head(s) + Sum(Tail(s))
 \* all fragments but the last are full; the last one may be followed by an empty terminator
 WellFragmented(fr, n) ==
   /\ Sum(fr) = n
+  /\ Len(fr) >= 1                         \* also an empty value is an item (of length 0)
   /\ \A k \in 1..Len(fr) : fr[k] <= MaxFrag
   /\ \A k \in 1..Len(fr) : (k < Len(fr) /\ ~(k = Len(fr) - 1 /\ fr[Len(fr)] = 0)) => fr[k] = MaxFrag
 RECURSIVE ParseFrom(_, _, _)
